@@ -213,19 +213,54 @@ def check_trig(fmt, xb, outs):
         dist = abs(oa - ob)
         tol = 10 if fmt == "float16" else 1
         if dist > tol:
-            # The unchanged tree exceeds the bound only where the multiword 2/pi is exhausted: when the remainder is
-            # c = log2(|x| / |remainder|) bits below x, the error is about 2^(c - C0) ULP (measured: C0 = 13.6 for
-            # float16, 125.2 for float32; nothing in float64).  That envelope is the known finding; an error that the
-            # cancellation does not explain is a different violation.
-            c = float(mpmath.log(abs(xm) / abs(rem), 2)) if rem != 0 else float("inf")
-            C0 = {"float16": 13.0, "float32": 124.5}.get(fmt)
-            cap = {"float16": 1024, "float32": 128, "float64": 1}[fmt]
+            # The unchanged tree exceeds the bound in two situations only (both known findings, both at hard cases where the
+            # remainder is c = log2(|x| / |remainder|) bits below x):
+            #  A. the multiword 2/pi is exhausted: the error is about 2^(c - C0) ULP (measured on continued-fraction hard
+            #     cases and random neighbours of k pi/2: C0 = 13.5 float16, 126.1 float32, 1022.1 float64);
+            #  B. a few ULP (<= 4) under heavy cancellation (c >= p + 24).
+            # An error explained by neither is a different violation.
             import math
-            if C0 is not None and dist <= cap and math.log2(dist) <= c - C0:
-                return (f"remainder off by more than {tol} ULP where the multiword 2/pi is exhausted (log2 error <= cancellation bits - {C0}; <= {cap} ULP): "
+            c = float(mpmath.log(abs(xm) / abs(rem), 2)) if rem != 0 else float("inf")
+            C0 = {"float16": 13.0, "float32": 125.5, "float64": 1021.5}[fmt]
+            if math.log2(dist) <= c - C0:
+                return (f"remainder off by more than {tol} ULP where the multiword 2/pi is exhausted (log2 error <= cancellation bits - {C0}): "
                         f"{dist} ULP at {c:.1f} cancellation bits")
+            if dist <= 4 and c >= p + 24:
+                return (f"remainder off by at most 4 ULP under heavy cancellation (>= p + 24 bits): {dist} ULP at {c:.1f} cancellation bits")
             return f"remainder off by more than {tol} ULP, not explained by cancellation: {dist} ULP at {c:.1f} cancellation bits"
     return None
+
+
+def cf_hard_cases(fmt, rng, count):
+    """patterns m*2^e closest to a multiple of pi/2: the convergents of (pi/2)/2^e whose numerator has exactly p bits
+    (the classical worst cases of trigonometric argument reduction), for `count` exponents of the domain"""
+    p, ew, w = fpx.FMT[fmt]
+    j = {"float64": 18, "float32": 5, "float16": 2}[fmt]
+    emax = {"float16": 16, "float32": 128, "float64": 1024}[fmt]
+    out = []
+    with mpmath.workprec(emax + 6 * p + 200):
+        pi2 = mpmath.pi / 2
+        exps = list(range(-p, emax - j - p))
+        rng.shuffle(exps)
+        for e in exps[:count]:
+            x = pi2 / mpmath.mpf(2) ** e
+            h0, h1, k0, k1 = 0, 1, 1, 0
+            best = None
+            for _ in range(300):
+                a = int(mpmath.floor(x))
+                h0, h1 = h1, a * h1 + h0
+                k0, k1 = k1, a * k1 + k0
+                if h1 >= 2 ** p:
+                    break
+                if h1 >= 2 ** (p - 1) and k1 >= 1:
+                    best = h1
+                fp_ = x - a
+                if fp_ == 0:
+                    break
+                x = 1 / fp_
+            if best:
+                out.append(fpx.round_ne(Fraction(best) * Fraction(2) ** e, fmt))
+    return out
 
 
 def gen_trig_inputs(ctx, fmt, n):
@@ -244,6 +279,9 @@ def gen_trig_inputs(ctx, fmt, n):
             b = fpx.round_ne(Fraction(int(v_ * mpmath.mpf(2) ** (4 * p)), 2 ** (4 * p)), fmt)
             if b < lim:
                 out.append((b + rng.randrange(-2, 3)) | (rng.getrandbits(1) << (w - 1)))
+    for b in cf_hard_cases(fmt, rng, n // 5):
+        if 0 < b < lim:
+            out.append((b + rng.choice([0, 0, 0, 1, -1])) | (rng.getrandbits(1) << (w - 1)))
     while len(out) < n:
         r = rng.random()
         if r < 0.7:
